@@ -36,7 +36,7 @@ ASSUMPTIONS = [
     "rebuilding from own attribute values is asserted when every stored attribute is init-enabled",
 ]
 
-SPECIALS = [["$obj", "func"], ["$obj", "func2"], ["$obj", "class"], ["$obj", "class2"], ["$obj", "module"], ["$selfmethod", "helper"], ["$selfmethod", "helper2"],
+SPECIALS = [["$obj", "func"], ["$obj", "func2"], ["$obj", "class"], ["$obj", "class2"], ["$obj", "speccls"], ["$obj", "speccls2"], ["$obj", "module"], ["$selfmethod", "helper"], ["$selfmethod", "helper2"],
             ["$othermethod", "helper"], 0, "a"]
 PROFILE = dict(grammar.PROFILES["data_plain"], preparers=False, invalidation=False, max_attrs=6)
 
